@@ -302,12 +302,8 @@ func runC08(s *core.Sim, tier string) RunInfo {
 				s.Fault("crash-after-delete")
 			case "restart":
 				hist = append(hist, "restart")
-				if err := w.Stop(); err != nil {
-					s.Violate("stop-error", nil, "Stop: %v", err)
-					break
-				}
-				if err := w.Open(); err != nil {
-					s.Violate("start-error", nil, "Start: %v", err)
+				if err := w.Restart(); err != nil {
+					s.Violate("start-error", nil, "restart: %v", err)
 					break
 				}
 			case "check":
